@@ -132,4 +132,25 @@ end
 
 def allRefs (top : Node) : List Ref := refsOf top []
 
+/-! ### where a counting function agrees with the node test (trigger predicate of F14a / F14e)
+
+`pathSafe cnt top is`: at every step down the child-index path `is`, the counting function `cnt`
+used by `get_child_position` for the child counts exactly those siblings that pass the node test
+of the step generated for it.  For the repaired counting (`sameKind`) this is always true; for
+the pinned counting (`pinnedKind`) it fails exactly where a PI has a sibling PI with another
+target (F14a) or a no-namespace element has a sibling PI whose target is its name (F14e). -/
+
+def safeAt (cnt : Node → Node → Bool) (kids : List Node) (c : Node) : Bool :=
+  kids.all fun c' => cnt c c' == (stepShape c).test c'
+
+def pathSafe (cnt : Node → Node → Bool) : Node → List Nat → Bool
+  | _, [] => true
+  | n, i :: is =>
+    match n.kids[i]? with
+    | some c => safeAt cnt n.kids c && pathSafe cnt c is
+    | none => true
+
+/-- `¬ pinnedSafe` is the trigger predicate of the (repaired) defects F14a / F14e -/
+def pinnedSafe (top : Node) (r : Ref) : Bool := pathSafe pinnedKind top r.path
+
 end EPV.NodePath
